@@ -281,6 +281,7 @@ struct Cfg {
     bool vec = false;     // vectored delivery of irq 14 enabled; DSP thread rewrites the vector registers
     bool cbsend = false;  // data callback re-enters SendData
     bool cbrecv = true;   // data callback re-enters RecvData
+    bool maskdance = false; // host masks, sets, waits for the forward, unmasks: semaphore callback on the host thread
     int nops = 8;
     long watchdog_s = 6;
 };
@@ -301,6 +302,10 @@ struct RunCtx {
     unsigned long guest_words = 0;
 };
 static RunCtx* g_run = nullptr;
+// which of the run's threads is executing: callbacks run on whichever thread made the call that fires them
+// (data callback: DSP thread; semaphore callback: DSP thread for the guest's 0x0CC write, HOST thread for
+// Teakra::MaskSemaphore since fix bf7856c).  0 = main thread, 1 = host thread, 2 = DSP thread.
+static thread_local int t_who = 0;
 
 static std::string stat_event(const char* e, unsigned w) {
     // order in which Cell::BitFieldCell::get evaluates the slots of 0x0D6
@@ -366,6 +371,10 @@ static void drain(RunCtx& R) {
 // host callbacks: they run on the DSP thread, inside the guest's (or the DSP thread's) write
 static void on_data(int c) {
     RunCtx& R = *g_run;
+    if (t_who != 2) { // cannot happen with the pinned wiring; never touch DSP-thread state from elsewhere
+        (t_who == 1 ? R.h : R.q).add(J("CbDataOnWrongThread", "c", c));
+        return;
+    }
     drain(R);
     flush_pending(R);
     R.d.add(J("CbData", "c", c));
@@ -389,25 +398,56 @@ static void on_data(int c) {
 }
 static void on_sem() {
     RunCtx& R = *g_run;
-    drain(R);
-    flush_pending(R);
-    R.d.add(J("CbSem"));
-    unsigned s = R.t->GetSemaphore();
-    R.d.add(J("SemGet", "r", s, "cb", 1));
+    // The re-entrant calls belong to the sequence of the thread that runs the callback.  Only the DSP
+    // thread may look at the guest's log ring / registers and at the DSP-thread buffer.
+    Ev& me = t_who == 2 ? R.d : t_who == 1 ? R.h : R.q;
+    if (t_who == 2) {
+        drain(R);
+        flush_pending(R);
+    }
+    me.add(J("CbSem"));
     bool rdy = R.t->RecvDataIsReady(0);
-    R.d.add(J("Ready", "c", 0, "r", rdy, "cb", 1));
+    me.add(J("Ready", "c", 0, "r", rdy, "cb", 1));
+    if (rdy) {
+        unsigned v = R.t->RecvData(0);
+        me.add(J("Recv", "c", 0, "r", v, "cb", 1));
+    }
+    unsigned s = R.t->GetSemaphore();
+    me.add(J("SemGet", "r", s, "cb", 1));
     R.t->ClearSemaphore((uint16_t)s);
-    R.d.add(J("SemClr", "v", s, "cb", 1));
-    R.d.add(J("CbEnd"));
+    me.add(J("SemClr", "v", s, "cb", 1));
+    me.add(J("CbEnd"));
 }
 
 static const unsigned SEMV[] = {1, 2, 4, 3, 0x8000, 0x8001, 0xFFFF, 6};
 
 static void host_thread(RunCtx& R, uint64_t seed) {
+    t_who = 1;
     vh::Rng rng(seed);
     Teakra::Teakra& t = *R.t;
     unsigned nsent[2] = {0, 0};
+    int dance_at = R.cfg.maskdance ? (int)rng.below(R.cfg.nops) : -1;
     for (int i = 0; i < R.cfg.nops; ++i) {
+        if (i == dance_at) {
+            // mask everything, raise a semaphore towards the DSP, give the DSP time to forward it (it arrives
+            // masked: no callback), then unmask: since fix bf7856c MaskSemaphore calls the host semaphore
+            // callback ON THIS THREAD, with the recursive semaphore mutex held
+            unsigned b = SEMV[rng.below(8)];
+            R.h.add(J("SemMask", "v", 0xFFFF));
+            t.MaskSemaphore(0xFFFF);
+            R.h.add(J("SemSet", "v", b));
+            t.SetSemaphore((uint16_t)b);
+            for (int k = 0; k < 4; ++k) {
+                spin(20000 + rng.below(20000));
+                std::this_thread::yield();
+                unsigned g = t.GetSemaphore();
+                R.h.add(J("SemGet", "r", g));
+                if (g) break;
+            }
+            R.h.add(J("SemMask", "v", 0));
+            t.MaskSemaphore(0);
+            continue;
+        }
         spin(rng.below(4) == 0 ? rng.below(20000) : rng.below(600));
         if (rng.chance(1, 6)) std::this_thread::yield();
         unsigned r = rng.below(100);
@@ -450,8 +490,8 @@ static void host_thread(RunCtx& R, uint64_t seed) {
             R.h.add(J("SemClr", "v", b));
         } else if (r < 96) {
             unsigned b = rng.chance(1, 2) ? 0 : SEMV[rng.below(8)];
+            R.h.add(J("SemMask", "v", b)); // logged first: the semaphore callback may run inside the call
             t.MaskSemaphore((uint16_t)b);
-            R.h.add(J("SemMask", "v", b));
         } else {
             bool e = t.SendDataIsEmpty((uint8_t)c);
             R.h.add(J("Empty", "c", c, "r", e));
@@ -487,6 +527,7 @@ static unsigned dsp_service(RunCtx& R) {
 }
 
 static void dsp_thread(RunCtx& R, uint64_t seed) {
+    t_who = 2;
     vh::Rng rng(seed);
     Teakra::Teakra& t = *R.t;
     int quiet = 0;
@@ -531,11 +572,11 @@ static void dsp_thread(RunCtx& R, uint64_t seed) {
             } else if (r < 50) {
                 unsigned q = t.MMIORead(0x200);
                 R.d.add(J("GetReq", "r", q));
-            } else if (r < 54) {
-                unsigned b = rng.chance(1, 2) ? 0 : SEMV[rng.below(8)];
-                t.MMIOWrite(0x0CE, (uint16_t)b);
+            } else if (r < 56) {
+                unsigned b = rng.chance(1, 2) ? 0 : (rng.chance(1, 2) ? 0xFFFF : SEMV[rng.below(8)]);
                 R.d.add(J("GSemMask", "v", b));
-            } else if (r < 57) {
+                t.MMIOWrite(0x0CE, (uint16_t)b);
+            } else if (r < 59) {
                 unsigned q = t.MMIORead(0x0D4);
                 R.d.add(J("GetDis", "r", q));
             }
@@ -576,9 +617,15 @@ NOSAN static void write_run(RunCtx& R) {
     ++g_out.lines;
 }
 
-static void collect_races(RunCtx& R, int from) {
-    int n = g_nraces.load(std::memory_order_relaxed);
-    if (n > 32) n = 32;
+static const int MAX_RACE_EVENTS_PER_RUN = 6; // a flood of reports must never make the line unwieldy
+static void collect_races(RunCtx& R, int from) { // from = number of reports before this run (uncapped)
+    int total = g_nraces.load(std::memory_order_relaxed);
+    int lo = from > 32 ? 32 : from;
+    int n = total > 32 ? 32 : total;
+    if (n > lo + MAX_RACE_EVENTS_PER_RUN) n = lo + MAX_RACE_EVENTS_PER_RUN;
+    if (total - from > n - lo) // more reports in this run than are written out (or than the table holds)
+        R.x.push_back("{\"e\":\"RaceFlood\",\"reports\":" + std::to_string(total - from) + "}");
+    from = lo;
     for (int i = from; i < n; ++i) {
         RaceRec& r = g_races[i];
         std::string s = std::string("{\"e\":\"Race\",\"kind\":\"") + (r.desc ? r.desc : "?") + "\",\"var\":\"" + r.var + "\"";
@@ -633,6 +680,7 @@ int main(int argc, char** argv) {
         R.cfg.cbsend = rng.chance(1, 3);
         R.cfg.cbrecv = !rng.chance(1, 4);
         R.cfg.nops = 4 + rng.below(7);
+        R.cfg.maskdance = rng.chance(1, 2);
         if (const char* w = std::getenv("CONC_WATCHDOG_S")) R.cfg.watchdog_s = std::atol(w);
         Teakra::UserConfig uc;
         Teakra::Teakra t(uc);
@@ -659,7 +707,6 @@ int main(int argc, char** argv) {
             }
         }
         int races_before = g_nraces.load(std::memory_order_relaxed);
-        if (races_before > 32) races_before = 32;
         uint64_t s1 = rng.next(), s2 = rng.next();
         std::thread wd(watchdog, &R, races_before);
         std::thread dt(dsp_thread, std::ref(R), s2);
